@@ -23,6 +23,11 @@ NEW = {"n": 0}
 LABEL = {}
 class Runaway(BaseException): pass
 class Boom(Exception): pass
+def RUN(c):
+    try:
+        while True: c.send(None)
+    except StopIteration as s:
+        return s.value
 def label(o):
     if o is None:
         return None
@@ -46,6 +51,14 @@ def do(act, self):
     elif act == "K()":
         LOG.append(("act", "K()", None))
         try: K()
+        finally: LOG.append(("act_end",))
+    elif act == "K2()":
+        LOG.append(("act", "K2()", None))
+        try: K2()
+        finally: LOG.append(("act_end",))
+    elif act == "ar":
+        LOG.append(("act", "ar", None))
+        try: RUN(ar())
         finally: LOG.append(("act_end",))
     elif act == "K!()":
         # a constructor whose body raises (not a contract violation); the caller handles the error
@@ -90,6 +103,7 @@ class E_g2_pre(Exception): pass
 class E_g2_post(Exception): pass
 class E_h_post(Exception): pass
 class E_r_pre(Exception): pass
+class E_ar_pre(Exception): pass
 class E_m_pre(Exception): pass
 class E_m_post(Exception): pass
 class E_K_inv(Exception): pass
@@ -99,6 +113,7 @@ def f_cap(): return slot("f.cap")
 def h_cap(): return slot("h.cap")
 def h_post(): return slot("h.post")
 def r_pre(): return slot("r.pre")
+def ar_pre(): return slot("ar.pre")
 def m_pre(self): return slot("m.pre", self)
 def m_post(self): return slot("m.post", self)
 def K_inv(self): return slot("K.inv", self)
@@ -130,6 +145,11 @@ def h():
 def r():
     body_slot("r.body")
 
+# ar: an ASYNC function with a precondition only
+@icontract.require(ar_pre, error=E_ar_pre)
+async def ar():
+    body_slot("ar.body")
+
 @icontract.invariant(K_inv, error=E_K_inv)
 class K(icontract.DBC):
     def __init__(self, boom=False):
@@ -143,15 +163,21 @@ class K(icontract.DBC):
     @icontract.ensure(m_post, error=E_m_post)
     def m(self):
         body_slot("m.body", self)
+class K2(K):
+    # the sub-class constructor calls the base constructor FIRST and goes on afterwards: the object is still under construction
+    def __init__(self):
+        super().__init__()
+        body_slot("K2.init", self)
 KEEP = []
 '''
 
-CONTRACT_SLOTS = ["f.pre", "f.cap", "f.post", "g.pre", "g.post", "g2.pre", "g2.post", "h.cap", "h.post", "r.pre", "m.pre", "m.post", "K.inv"]
-BODY_SLOTS = ["f.body", "g.body", "g2.body", "h.body", "r.body", "m.body", "K.init"]
+CONTRACT_SLOTS = ["f.pre", "f.cap", "f.post", "g.pre", "g.post", "g2.pre", "g2.post", "h.cap", "h.post", "r.pre", "ar.pre", "m.pre", "m.post", "K.inv"]
+BODY_SLOTS = ["f.body", "g.body", "g2.body", "h.body", "r.body", "ar.body", "m.body", "K.init", "K2.init"]
 SLOTS = CONTRACT_SLOTS + BODY_SLOTS
 ACTIONS = ["f", "g", "g2", "h", "r", "self.m", "other.m", "K()"]
 EXT_ACTIONS = ACTIONS + ["K!()", "kept.m"]
-TOPS = ["f", "g", "g2", "h", "r", "self.m", "K()"]
+ASYNC_ACTIONS = ["ar", "K2()"]
+TOPS = ["f", "g", "g2", "h", "r", "ar", "self.m", "K()", "K2()"]
 
 
 def scripts(maxlen):
@@ -201,6 +227,18 @@ def programs(tier):
             for sb in ([["kept.m"], ["self.m"], ["f"], ["K!()"]] if tier == "quick" else [[x] for x in EXT_ACTIONS]):
                 if b in BODY_SLOTS or "K!()" not in sb:
                     progs.append({a: sa, b: sb})
+    # the async precondition-only function and the two-level constructor: scripts that use them
+    ext_async = [list(p) for p in itertools.product(ACTIONS + ASYNC_ACTIONS, repeat=2) if "ar" in p or "K2()" in p]
+    for slot in SLOTS:
+        for sc in [["ar"], ["K2()"]] + (ext_async if slot in ("ar.pre", "ar.body", "K2.init", "K.init", "K.inv", "m.body", "f.body", "r.body") or tier == "thorough" else []):
+            if "K2()" in sc and slot == "K.inv":
+                continue
+            progs.append({slot: sc})
+    for a, b in itertools.permutations(SLOTS, 2):
+        if a in ("ar.pre", "ar.body", "K2.init"):
+            for sa in ([["ar"], ["self.m"], ["f"], ["r"]] if a != "K2.init" else [["self.m"], ["f"], ["K()"]]):
+                for sb in [["ar"], ["self.m"], ["f"]]:
+                    progs.append({a: sa, b: sb})
     if tier == "thorough":
         for a, b, c in itertools.combinations(SLOTS, 3):
             small = [[x] for x in ("f", "g", "r", "self.m", "other.m")]
@@ -210,7 +248,7 @@ def programs(tier):
                         progs.append({a: sa, b: sb, c: sc})
     # An invariant that constructs a new instance of its own class recurses without bound in *any* semantics that
     # checks distinct objects (every new object is a different one): such programs are not part of the property.
-    progs = [p for p in progs if "K()" not in p.get("K.inv", ()) and "K!()" not in p.get("K.inv", ())]
+    progs = [p for p in progs if not ({"K()", "K!()", "K2()"} & set(p.get("K.inv", ())))]
     progs.sort(key=lambda p: sum(len(v) for v in p.values()))
     return progs
 
@@ -251,11 +289,11 @@ def ancestors(n):
         n = n.parent
 
 
-FUNC_CONTRACTS = {"f": {"f.pre", "f.cap", "f.post"}, "g": {"g.pre", "g.post"}, "g2": {"g2.pre", "g2.post"}, "h": {"h.cap", "h.post"}, "r": {"r.pre"},
+FUNC_CONTRACTS = {"f": {"f.pre", "f.cap", "f.post"}, "g": {"g.pre", "g.post"}, "g2": {"g2.pre", "g2.post"}, "h": {"h.cap", "h.post"}, "r": {"r.pre"}, "ar": {"ar.pre"},
                   "m": {"m.pre", "m.post"}}
-FULL = {"f": ["f.pre", "f.cap", "f.body", "f.post"], "g": ["g.pre", "g.body", "g.post"], "g2": ["g2.pre", "g2.body", "g2.post"], "r": ["r.pre", "r.body"],
+FULL = {"f": ["f.pre", "f.cap", "f.body", "f.post"], "g": ["g.pre", "g.body", "g.post"], "g2": ["g2.pre", "g2.body", "g2.post"], "r": ["r.pre", "r.body"], "ar": ["ar.pre", "ar.body"],
         "h": ["h.cap", "h.body", "h.post"], "m": ["m.pre", "m.body", "m.post"]}
-BARE = {"f": ["f.body"], "g": ["g.body"], "g2": ["g2.body"], "h": ["h.body"], "r": ["r.body"], "m": ["m.body"]}
+BARE = {"f": ["f.body"], "g": ["g.body"], "g2": ["g2.body"], "h": ["h.body"], "r": ["r.body"], "ar": ["ar.body"], "m": ["m.body"]}
 
 
 def judge_tree(root, complete):
@@ -269,7 +307,7 @@ def judge_tree(root, complete):
             continue
         slots = [c for c in n.children if c.kind == "slot"]
         names = [c.name for c in slots]
-        if n.name in ("f", "g", "g2", "h", "r", "m"):
+        if n.name in ("f", "g", "g2", "h", "r", "ar", "m"):
             own = FUNC_CONTRACTS[n.name]
             must = not any(a.kind == "slot" and a.name in own for a in ancestors(n))
             core_names = [x for x in names if x != "K.inv"]
@@ -284,7 +322,7 @@ def judge_tree(root, complete):
                         n.name, core_names), {"target": n.name})
             if n.name == "m":
                 o = n.obj
-                susp = any((a.kind == "slot" and a.obj == o and a.name in ("K.inv", "K.init", "m.pre", "m.body", "m.post"))
+                susp = any((a.kind == "slot" and a.obj == o and a.name in ("K.inv", "K.init", "K2.init", "m.pre", "m.body", "m.post"))
                            or (a.kind == "call" and a.name == "m" and a.obj == o) for a in ancestors(n))
                 inv_idx = [i for i, x in enumerate(names) if x == "K.inv"]
                 if not susp:
@@ -299,6 +337,13 @@ def judge_tree(root, complete):
             # the constructor body raised: nothing of that object may be evaluated afterwards within the construction
             if names[:1] != ["K.init"] or any(x == "K.inv" and sl.obj == slots[0].obj for x, sl in zip(names[1:], slots[1:])):
                 yield ("constructor_shape", n, "K!() (constructor body raises): evaluations {}".format(list(zip(names, [s.obj for s in slots]))), {"target": "K!()"})
+        elif n.name == "K2()":
+            # base constructor body, then the sub-class part, then the invariant exactly once at the very end, all on one object
+            own = [(x, sl) for x, sl in zip(names, slots) if sl.obj == slots[0].obj]
+            own_names = [x for x, _ in own]
+            if names[:1] != ["K.init"] or own_names.count("K.inv") != 1 or own_names[-1] != "K.inv" or "K2.init" not in own_names \
+                    or own_names.index("K2.init") < own_names.index("K.init"):
+                yield ("constructor_shape", n, "K2(): evaluations {}".format(list(zip(names, [s.obj for s in slots]))), {"target": "K2()"})
         elif n.name == "K()":
             if names[:1] != ["K.init"] or names.count("K.inv") != 1 or names[-1] != "K.inv" or slots[-1].obj != slots[0].obj:
                 yield ("constructor_shape", n, "K(): evaluations {}".format(list(zip(names, [s.obj for s in slots]))), {"target": "K()"})
@@ -375,7 +420,7 @@ def check_program(prog, acc):
         while stack:
             n = stack.pop()
             stack.extend(n.children)
-            if n.kind == "slot" and n.name in ("f.pre", "f.post", "g.pre", "g.post", "g2.pre", "g2.post", "h.post", "r.pre", "m.pre", "m.post", "K.inv"):
+            if n.kind == "slot" and n.name in ("f.pre", "f.post", "g.pre", "g.post", "g2.pre", "g2.post", "h.post", "r.pre", "ar.pre", "m.pre", "m.post", "K.inv"):
                 call = n.parent
                 own = FUNC_CONTRACTS.get(call.name, set()) if call is not None and call.kind == "call" else set()
                 # evaluated as part of a checked call: the error has to propagate to the top (nobody catches)
@@ -412,8 +457,8 @@ def run(tier, t0):
     return core.finish(
         PROP, tier, tot, t0,
         rule="call-graph programs over f (pre/capture/post), g and g2 (pre/post, made by one factory: shared code objects), h (capture/post "
-             "only, no precondition), r (precondition only), class K(DBC) with invariant, method m (pre/post), "
-             "constructor, instances A and B: every slot (13 contract slots, 7 body slots) may hold a script of 0-2 actions from "
+             "only, no precondition), r (precondition only), async ar (precondition only), class K(DBC) with invariant, method m (pre/post), "
+             "constructor, instances A and B: every slot (14 contract slots, 9 body slots; K2(K) has a constructor that calls the base constructor first and continues) may hold a script of 0-2 actions from "
              "{f(), g(), g2(), h(), r(), self.m(), other.m(), K()}, plus scripts using {K!() = a constructor whose body raises and whose error "
              "is handled, kept.m() = a call on the most recently constructed instance}; enumerated: every program with <= 2 (quick) / 3 (thorough) non-empty slots, "
              "x 7 top-level actions x (all true | each evaluated condition falsy). A monitor checks on the real event tree that "
